@@ -23,10 +23,8 @@ def _uniqify_labels(arr, labels: list[str]) -> np.ndarray:
     unique_labels = list(set(labels))
     mapping = np.array([-1] + [unique_labels.index(label) for label in labels])
 
-    palette = np.arange(len(labels), dtype=int)
-
-    index = np.digitize(arr, palette, right=True)
-    return mapping[index]
+    # `arr` holds site indices (-1 for no site), shift by one to index `mapping`
+    return mapping[arr + 1]
 
 
 def _get_states(labels: list[str]) -> dict[int, str]:
